@@ -1,7 +1,7 @@
 (* Proofs for C17 part 2: the label-index selection (fp_sel), its bridge to the reference
    interpreter applied to the planner's own SQL tree, exactness against the Prometheus meaning of
    matchers, the Select row loop, the raw/down-sampled decision. *)
-From Coq Require Import List ZArith NArith String Ascii Bool Lia Arith Sorting.Sorted.
+From Coq Require Import List ZArith NArith String Ascii Bool Lia Arith Sorting.Sorted Sorting.Permutation.
 From Qryn Require Import lib.Strs model.Sql model.SqlRender model.Logql model.LogqlPlan
   model.PromSelect model.PromSel model.PromSem model.ProfSel model.ProfSem model.PromCase.
 Import ListNotations.
@@ -1537,3 +1537,482 @@ Proof. split; reflexivity. Qed.
 Example range_filter_off_grid : window 5 3 [(1, 9)] = [(1, 9)] /\ window 5 3 (range_filter 10 5 [(1, 9)]) = [].
 Proof. split; reflexivity. Qed.
 
+
+(* ====================================================================================== *)
+(* K. Select end to end: labels request, ReshuffleSeries, final sort                       *)
+(* ====================================================================================== *)
+Open Scope string_scope.
+Open Scope list_scope.
+(* ---- insertion sort is a permutation ---- *)
+Lemma insert_sorted_perm {A} (lt : A -> A -> bool) x l : Permutation (insert_sorted lt x l) (x :: l).
+Proof.
+  induction l as [|y l IH]; cbn [insert_sorted]; [apply Permutation_refl|].
+  destruct (lt x y); [apply Permutation_refl|].
+  apply Permutation_trans with (y :: x :: l); [now apply perm_skip|apply perm_swap].
+Qed.
+Lemma isort_perm {A} (lt : A -> A -> bool) l : Permutation (isort lt l) l.
+Proof.
+  unfold isort.
+  assert (H : forall acc, Permutation (fold_left (fun acc x => insert_sorted lt x acc) l acc) (acc ++ l)).
+  { induction l as [|x l IH]; intros acc; cbn [fold_left]; [rewrite app_nil_r; apply Permutation_refl|].
+    apply Permutation_trans with (insert_sorted lt x acc ++ l); [apply IH|].
+    apply Permutation_trans with ((x :: acc) ++ l); [apply Permutation_app_tail; apply insert_sorted_perm|].
+    cbn [app]. apply Permutation_middle. }
+  apply (H []).
+Qed.
+
+(* ---- ReshuffleSeries does nothing when the label strings are pairwise distinct ---- *)
+Lemma reshuffle_go_id : forall (l : list (string * pseries)) seen,
+  NoDup (map fst l) -> (forall k, List.In k seen -> ~ List.In k (map fst l)) ->
+  reshuffle_go seen l = map snd l.
+Proof.
+  induction l as [|[k s] rest IH]; intros seen Hnd Hseen; [reflexivity|].
+  cbn [reshuffle_go map snd fst] in *. inversion Hnd as [|? ? Hk Hnd']; subst.
+  assert (Hex : existsb (String.eqb k) seen = false).
+  { apply not_true_is_false. intros H. apply existsb_exists in H. destruct H as [k' [Hin He]]. apply String.eqb_eq in He. subst k'.
+    apply (Hseen k Hin). now left. }
+  rewrite Hex.
+  assert (Hdups : filter (fun ks : string * pseries => String.eqb (fst ks) k) rest = []).
+  { clear -Hk. induction rest as [|[k' s'] r IHr]; [reflexivity|]. cbn [filter fst map] in *.
+    destruct (String.eqb_spec k' k) as [->|Hne]; [exfalso; apply Hk; now left|]. apply IHr. intros H. apply Hk. now right. }
+  rewrite Hdups. cbn [fold_left]. f_equal; [now destruct s|].
+  apply IH; [assumption|]. intros k' [<-|Hin]; [assumption|]. intros H. apply (Hseen k' Hin). now right.
+Qed.
+Lemma reshuffle_id getl ss :
+  NoDup (map (fun s => label_str (getl (ps_fp s))) ss) -> reshuffle getl ss = ss.
+Proof.
+  intros Hnd. unfold reshuffle. rewrite reshuffle_go_id.
+  - rewrite map_map. cbn [snd]. apply map_id.
+  - rewrite map_map. cbn [fst]. exact Hnd.
+  - intros k [].
+Qed.
+
+(* ---- labelsGetter: the labels answered for a fingerprint ---- *)
+Lemma find_app_last {A} (p : A -> bool) l x :
+  find p (l ++ [x]) = match find p l with Some y => Some y | None => if p x then Some x else None end.
+Proof. induction l as [|y l IH]; cbn [app find]; [reflexivity|]. destruct (p y); [reflexivity|exact IH]. Qed.
+
+Lemma fingerprints_has_find fetch fp :
+  fingerprints_has fetch fp =
+  match find (fun fr => N.eqb (fst fr) fp) (rev fetch) with Some fr => Some (sort_labels (snd fr)) | None => None end.
+Proof.
+  unfold fingerprints_has.
+  assert (H : forall acc, fold_left (fun acc fr => if N.eqb (fst fr) fp then Some (sort_labels (snd fr)) else acc) fetch acc =
+                          match find (fun fr => N.eqb (fst fr) fp) (rev fetch) with Some fr => Some (sort_labels (snd fr)) | None => acc end).
+  { induction fetch as [|fr fetch IH]; intros acc; [reflexivity|]. cbn [fold_left rev]. rewrite IH, find_app_last.
+    destruct (find (fun fr0 : N * labels => N.eqb (fst fr0) fp) (rev fetch)); [reflexivity|]. destruct (N.eqb (fst fr) fp); reflexivity. }
+  apply H.
+Qed.
+
+Lemma fingerprints_has_spec fetch fp :
+  match fingerprints_has fetch fp with
+  | Some l => exists fr, List.In fr fetch /\ fst fr = fp /\ l = sort_labels (snd fr)
+  | None => forall fr, List.In fr fetch -> fst fr <> fp
+  end.
+Proof.
+  rewrite fingerprints_has_find. destruct (find (fun fr0 : N * labels => N.eqb (fst fr0) fp) (rev fetch)) as [fr|] eqn:E.
+  - apply find_some in E. destruct E as [Hin He]. exists fr. split; [now apply in_rev|]. split; [now apply N.eqb_eq|reflexivity].
+  - intros fr Hin He. assert (Hn := find_none _ _ E fr). cbv beta in Hn. rewrite He, N.eqb_refl in Hn.
+    assert (Hr : List.In fr (rev fetch)) by (rewrite <- in_rev; exact Hin). specialize (Hn Hr). discriminate.
+Qed.
+
+Lemma labels_get_own D1 D2 fps series s :
+  (forall s1 s2, List.In s1 series -> List.In s2 series -> t_fp s1 = t_fp s2 -> t_labels s1 = t_labels s2) ->
+  List.In s series -> (D1 <= t_date s)%Z -> (t_date s <= D2)%Z -> List.In (t_fp s) fps ->
+  labels_get (fetch_rows D1 D2 fps series) (t_fp s) = sort_labels (sort_labels (t_labels s)).
+Proof.
+  intros Hf Hs Hd1 Hd2 Hfp. unfold labels_get.
+  assert (Hspec := fingerprints_has_spec (fetch_rows D1 D2 fps series) (t_fp s)).
+  destruct (fingerprints_has (fetch_rows D1 D2 fps series) (t_fp s)) as [l|].
+  - destruct Hspec as [fr [Hin [Hfr ->]]]. unfold fetch_rows in Hin. apply in_map_iff in Hin.
+    destruct Hin as [s' [<- Hs']]. apply filter_In in Hs'. destruct Hs' as [Hs' _]. cbn [fst snd] in *.
+    now rewrite (Hf s' s Hs' Hs Hfr).
+  - exfalso. apply (Hspec (t_fp s, t_labels s)); [|reflexivity].
+    unfold fetch_rows. apply in_map_iff. exists s. split; [reflexivity|]. apply filter_In. split; [assumption|].
+    rewrite !andb_true_iff, !Z.leb_le. split; [tauto|]. apply existsb_exists. exists (t_fp s). split; [assumption|apply N.eqb_refl].
+Qed.
+
+Lemma NoDup_map_inj_on {A B} (g : A -> B) l :
+  NoDup l -> (forall x y, List.In x l -> List.In y l -> g x = g y -> x = y) -> NoDup (map g l).
+Proof.
+  induction l as [|x l IH]; intros Hnd Hinj; [constructor|]. inversion Hnd as [|? ? Hx Hnd']; subst. cbn [map]. constructor.
+  - intros Hin. apply in_map_iff in Hin. destruct Hin as [y [He Hy]].
+    assert (y = x) by (apply Hinj; [now right|now left|assumption]). subst y. contradiction.
+  - apply IH; [assumption|]. intros a b Ha Hb. apply Hinj; now right.
+Qed.
+
+Section FINAL.
+  Variable re_match re_full : string -> string -> bool.
+  Hypothesis anchor_law : forall v p, re_match v (anchor p) = re_full v p.
+
+  Definition day_from (h : hints) : Z := from_day (h_start h * 1000000).
+  Definition day_to (h : hints) : Z := (h_end h / 86400000)%Z.
+  (* what CLokiQuerier.Select returns, the two statements being answered by the reference interpreter *)
+  Definition prom_select (cluster : bool) (dbname : string) (h : hints) (ms : list matcher) (db : database) : option (list out_series) :=
+    match prom_query_rows re_match cluster dbname h ms db with
+    | Some rows => Some (select_series (snd (querier_transpile cluster dbname h ms)) rows
+                           (fetch_rows (day_from h) (day_to h) (fps_of rows) (d_series db)))
+    | None => None
+    end.
+
+  Theorem prom_select_exact_series cluster dbname h ms db :
+    use_raw_data h = true -> h_step h = 0%Z ->
+    db_ok (day_from h) (d_gin db) (d_series db) ->
+    ms <> [] -> (List.length ms <= 8)%nat ->
+    (forall m, List.In m ms -> matcher_guard re_full (d_series db) m) ->
+    (* a sample inside the window belongs to a series announced between the two date bounds of the labels request *)
+    (forall sm, List.In sm (d_samples db) -> window_ok h sm = true ->
+       exists s, List.In s (d_series db) /\ t_fp s = sm_fp sm /\ (day_from h <= t_date s)%Z /\ (t_date s <= day_to h)%Z) ->
+    (* distinct stored series print distinct label strings *)
+    (forall s1 s2, List.In s1 (d_series db) -> List.In s2 (d_series db) ->
+       label_str (sort_labels (sort_labels (t_labels s1))) = label_str (sort_labels (sort_labels (t_labels s2))) -> t_fp s1 = t_fp s2) ->
+    exists rows out, prom_query_rows re_match cluster dbname h ms db = Some rows /\
+      prom_select cluster dbname h ms db = Some out /\
+      NoDup (map o_fp out) /\
+      (forall fp, List.In fp (map o_fp out) <->
+                  List.In fp (expected_fps re_full (day_from h) ms (d_series db)) /\
+                  exists s, List.In s (d_samples db) /\ window_ok h s = true /\ sm_fp s = fp) /\
+      (forall o, List.In o out ->
+         (exists s, List.In s (d_series db) /\ t_fp s = o_fp o /\ prom_matches re_full ms (t_labels s) = true /\
+                    (forall kv, List.In kv (o_labels o) <-> List.In kv (t_labels s))) /\
+         o_samples o = rows_of (o_fp o) rows /\
+         StronglySorted Z.le (map fst (o_samples o))).
+  Proof.
+    intros Hraw Hstep Hdb Hne Hlen Hg Hrows Hdist.
+    destruct (prom_select_series_exact re_match re_full anchor_law cluster dbname h ms db Hraw Hstep Hdb Hne Hlen Hg)
+      as [rows [Hq [Hnd [Hfps Hss]]]].
+    unfold prom_select. rewrite Hq.
+    set (mr := snd (querier_transpile cluster dbname h ms)) in *.
+    set (ss := select_loop mr rows) in *.
+    set (fetch := fetch_rows (day_from h) (day_to h) (fps_of rows) (d_series db)).
+    set (getl := labels_get fetch).
+    (* the labels of every assembled series *)
+    assert (Hfpin : forall s', List.In s' ss -> List.In (ps_fp s') (fps_of rows)).
+    { intros s' Hs'. unfold fps_of. apply nodup_In.
+      destruct (Hss s' Hs') as [Hsm _]. 
+      assert (Hin : List.In (ps_fp s') (map ps_fp ss)) by now apply in_map.
+      apply Hfps in Hin. destruct Hin as [_ [sm [Hsm1 [Hw Hfp]]]].
+      (* the fingerprint occurs among the rows: its series is non-empty *)
+      destruct (Hss s' Hs') as [Heq [_ Hx]].
+      assert (Hxin : List.In (Z.quot (sm_ts_ns sm) 1000000, sm_value sm) (ps_samples s')) by (apply Hx; exists sm; tauto).
+      rewrite Heq in Hxin. unfold rows_of in Hxin. apply in_map_iff in Hxin. destruct Hxin as [r [_ Hr]].
+      apply filter_In in Hr. destruct Hr as [Hr Hfpr]. apply N.eqb_eq in Hfpr. rewrite <- Hfpr. now apply in_map. }
+    assert (Hlab : forall s', List.In s' ss -> exists s, List.In s (d_series db) /\ t_fp s = ps_fp s' /\
+                     getl (ps_fp s') = sort_labels (sort_labels (t_labels s))).
+    { intros s' Hs'.
+      assert (Hin : List.In (ps_fp s') (map ps_fp ss)) by now apply in_map.
+      apply Hfps in Hin. destruct Hin as [_ [sm [Hsm1 [Hw Hfp]]]].
+      destruct (Hrows sm Hsm1 Hw) as [s [Hs [Hsfp [Hd1 Hd2]]]].
+      exists s. split; [assumption|]. split; [congruence|].
+      unfold getl, fetch. rewrite <- Hfp, <- Hsfp.
+      apply labels_get_own; try assumption; [apply (fp_functional _ _ _ Hdb)|].
+      rewrite Hsfp, Hfp. now apply Hfpin. }
+    assert (Hkeys : NoDup (map (fun s => label_str (getl (ps_fp s))) ss)).
+    { rewrite <- (map_map ps_fp (fun fp => label_str (getl fp))). apply NoDup_map_inj_on; [assumption|].
+      intros x y Hx Hy He. apply in_map_iff in Hx. destruct Hx as [sx [<- Hsx]]. apply in_map_iff in Hy. destruct Hy as [sy [<- Hsy]].
+      destruct (Hlab sx Hsx) as [s1 [Hs1 [Hf1 Hl1]]]. destruct (Hlab sy Hsy) as [s2 [Hs2 [Hf2 Hl2]]].
+      rewrite Hl1, Hl2 in He. rewrite <- Hf1, <- Hf2. now apply Hdist. }
+    set (mk := fun s => {| o_labels := getl (ps_fp s); o_fp := ps_fp s; o_samples := ps_samples s |}).
+    assert (Hout : select_series mr rows fetch = isort out_lt (map mk ss)).
+    { unfold select_series. fold getl. fold ss. rewrite (reshuffle_id getl ss Hkeys). reflexivity. }
+    exists rows, (isort out_lt (map mk ss)). split; [reflexivity|]. split; [now rewrite Hout|].
+    assert (Hperm := isort_perm out_lt (map mk ss)).
+    assert (Hfpmap : map o_fp (map mk ss) = map ps_fp ss) by (rewrite map_map; reflexivity).
+    split; [|split].
+    - apply (Permutation_NoDup (l := map o_fp (map mk ss))); [apply Permutation_map; now apply Permutation_sym|]. now rewrite Hfpmap.
+    - intros fp. rewrite <- Hfps, <- Hfpmap. split; intros Hin.
+      + apply (Permutation_in _ (Permutation_map o_fp Hperm)). exact Hin.
+      + apply (Permutation_in _ (Permutation_map o_fp (Permutation_sym Hperm))). exact Hin.
+    - intros o Ho. apply (Permutation_in _ Hperm) in Ho. apply in_map_iff in Ho. destruct Ho as [s' [<- Hs']].
+      cbn [mk o_labels o_fp o_samples]. destruct (Hss s' Hs') as [Heq [Hasc _]].
+      split; [|split; assumption].
+      destruct (Hlab s' Hs') as [s [Hs [Hsfp Hl]]].
+      assert (Hin : List.In (ps_fp s') (map ps_fp ss)) by now apply in_map.
+      apply Hfps in Hin. destruct Hin as [Hexp _]. unfold expected_fps in Hexp. apply nodup_In in Hexp.
+      apply in_map_iff in Hexp. destruct Hexp as [sm [Hsmfp Hsm]]. apply filter_In in Hsm. destruct Hsm as [Hsm Hok].
+      apply andb_prop in Hok. destruct Hok as [_ Hpm].
+      exists s. split; [assumption|]. split; [assumption|]. split.
+      + rewrite (fp_functional _ _ _ Hdb s sm Hs Hsm) by congruence. exact Hpm.
+      + intros kv. rewrite Hl. unfold sort_labels. rewrite !isort_in. tauto.
+  Qed.
+End FINAL.
+
+Example final_select_nonvacuous :
+  prom_select re_none false "qryn" w_hints g_ms w_db =
+  Some [{| o_labels := [("__name__", "up"); ("env", "dev")]; o_fp := 32; o_samples := [(1700000001000, 2)] |}].
+Proof. vm_compute. reflexivity. Qed.
+Example final_hypotheses_met :
+  (forall sm, List.In sm (d_samples w_db) -> window_ok w_hints sm = true ->
+     exists s, List.In s (d_series w_db) /\ t_fp s = sm_fp sm /\ (day_from w_hints <= t_date s)%Z /\ (t_date s <= day_to w_hints)%Z) /\
+  (forall s1 s2, List.In s1 (d_series w_db) -> List.In s2 (d_series w_db) ->
+     label_str (sort_labels (sort_labels (t_labels s1))) = label_str (sort_labels (sort_labels (t_labels s2))) -> t_fp s1 = t_fp s2).
+Proof.
+  split.
+  - intros sm [<-|[<-|[]]] _.
+    + eexists. split; [left; reflexivity|]. split; [reflexivity|]. split; vm_compute; discriminate.
+    + eexists. split; [right; left; reflexivity|]. split; [reflexivity|]. split; vm_compute; discriminate.
+  - intros s1 s2 [<-|[<-|[]]] [<-|[<-|[]]]; try reflexivity; vm_compute; intros E; discriminate E.
+Qed.
+
+(* ====================================================================================== *)
+(* L. bridge: the interpreter applied to the profile selector planner's own tree           *)
+(* ====================================================================================== *)
+Open Scope string_scope.
+Open Scope list_scope.
+Section PBRIDGE.
+  Variable re : string -> string -> bool.
+  Variable cte : select -> option (list N).
+  Notation ev := (ev re cte).
+
+  Lemma ev_matcher_clause rho field op v x :
+    ev rho field = Some (VS x) -> ev rho (matcher_clause field op v) = Some (b2v (cmp_ok re op v x)).
+  Proof.
+    intros H. unfold matcher_clause, Eq, Neq, cmp_ok.
+    destruct op; rewrite (ev_LOp re cte); cbn [map].
+    - rewrite H. cbn. destruct (String.eqb x v); reflexivity.
+    - rewrite H. cbn. destruct (String.eqb x v); reflexivity.
+    - rewrite (ev_Fn_match re cte), H. cbn. destruct (re x v); reflexivity.
+    - rewrite (ev_Fn_match re cte), H. cbn. destruct (re x v); reflexivity.
+  Qed.
+
+  Lemma pg_type_id_env r : pgin_env r "type_id" = Some (VS (pg_type_id r)). Proof. reflexivity. Qed.
+  Lemma pg_parts_env r : pgin_env r "_parts" = Some (VArr (map VS (type_parts r))). Proof. reflexivity. Qed.
+  Lemma pg_service_env r : pgin_env r "service_name" = Some (VS (pg_service r)). Proof. reflexivity. Qed.
+  Lemma pg_stu_env r : pgin_env r "sample_types_units" = Some (VArr (map (fun ab => VTup [VS (fst ab); VS (snd ab)]) (pg_stu r))). Proof. reflexivity. Qed.
+
+  Lemma nth_map_VS k parts : nth k (map VS parts) (VS "") = VS (nth k parts "").
+  Proof. change (VS "") with (VS ""). apply map_nth. Qed.
+
+  Lemma ev_type_part r k : (1 <= k)%Z ->
+    ev (pgin_env r) (type_part k) = Some (VS (nth (Z.to_nat (k - 1)) (type_parts r) "")).
+  Proof.
+    intros Hk. unfold type_part. cbn [PromSem.ev]. rewrite pg_type_id_env. cbn. unfold type_parts.
+    now rewrite nth_map_VS.
+  Qed.
+
+  Definition xenv (a b : string) (rho : env) : env :=
+    fun n => if String.eqb n "x.1" then Some (VS a) else if String.eqb n "x.2" then Some (VS b) else rho n.
+
+  Lemma existsb_id_map {A} (f : A -> bool) l : existsb (fun b => b) (map f l) = existsb f l.
+  Proof. induction l as [|x l IH]; [reflexivity|]. cbn [map existsb]. now rewrite IH. Qed.
+
+  Lemma ev_array_exists r body (f : string * string -> bool) :
+    (forall a b, ev (xenv a b (pgin_env r)) body = Some (b2v (f (a, b)))) ->
+    ev (pgin_env r) (array_exists body) = Some (b2v (existsb f (pg_stu r))).
+  Proof.
+    intros H. unfold array_exists. cbn [PromSem.ev]. cbn [String.eqb Ascii.eqb Bool.eqb]. rewrite pg_stu_env.
+    rewrite map_map.
+    rewrite (map_ext _ (fun ab => Some (f ab))).
+    2:{ intros [a b]. cbn [fst snd]. fold (xenv a b (pgin_env r)). rewrite H. cbn [omap]. now rewrite is_true_b2v. }
+    rewrite all_some_map_Some. cbn [omap]. now rewrite existsb_id_map.
+  Qed.
+
+  Lemma eq_one_b2v rho e b : ev rho e = Some (b2v b) -> ev rho (Eq e (IntV 1)) = Some (b2v b).
+  Proof. intros H. unfold Eq. rewrite (ev_LOp re cte). cbn [map]. rewrite H. cbn. destruct b; reflexivity. Qed.
+
+  Lemma ev_profile_type_field r a b :
+    ev (xenv a b (pgin_env r)) profile_type_field =
+    Some (VS (subst_braces "{}:{}:{}:{}:{}" [nth 0 (type_parts r) ""; a; b; nth 1 (type_parts r) ""; nth 2 (type_parts r) ""])).
+  Proof.
+    unfold profile_type_field. cbn [PromSem.ev]. cbn [String.eqb Ascii.eqb Bool.eqb].
+    unfold xenv. cbn [String.eqb Ascii.eqb Bool.eqb].
+    rewrite pg_type_id_env, pg_parts_env. cbn. unfold type_parts. rewrite !nth_map_VS. reflexivity.
+  Qed.
+
+  Lemma ev_global_clause r p op v :
+    ev (pgin_env r) (global_clause p op v) = Some (b2v (pseudo_ok re p op v (type_parts r) (pg_service r) (pg_stu r))).
+  Proof.
+    destruct p; cbn [global_clause pseudo_ok].
+    - apply ev_matcher_clause. now rewrite ev_type_part.
+    - apply ev_matcher_clause. now rewrite ev_type_part.
+    - apply ev_matcher_clause. now rewrite ev_type_part.
+    - apply eq_one_b2v. apply (ev_array_exists r _ (fun ab => cmp_ok re op v (fst ab))). intros a b. now apply ev_matcher_clause.
+    - apply eq_one_b2v. apply (ev_array_exists r _ (fun ab => cmp_ok re op v (snd ab))). intros a b. now apply ev_matcher_clause.
+    - apply eq_one_b2v.
+      apply (ev_array_exists r _ (fun ab => cmp_ok re op v (subst_braces "{}:{}:{}:{}:{}"
+               [nth 0 (type_parts r) ""; fst ab; snd ab; nth 1 (type_parts r) ""; nth 2 (type_parts r) ""]))).
+      intros a b. apply ev_matcher_clause. apply ev_profile_type_field.
+    - apply ev_matcher_clause. apply pg_service_env.
+  Qed.
+
+  Lemma pg_key_env r : pgin_env r "key" = Some (VS (pg_key r)). Proof. reflexivity. Qed.
+  Lemma pg_val_env r : pgin_env r "val" = Some (VS (pg_val r)). Proof. reflexivity. Qed.
+  Lemma pg_date_env r : pgin_env r "date" = Some (VI (pg_date r)). Proof. reflexivity. Qed.
+  Lemma pg_fp_env r : pgin_env r "fingerprint" = Some (VI (Z.of_N (pg_fp r))). Proof. reflexivity. Qed.
+
+  Lemma cmp_ok_vcond op v x :
+    cmp_ok re op v x = eval_vcond re (match op with MEq => VEq v | MNeq => VNeq v | MRe => VRe v | MNre => VNre v end) x.
+  Proof. destruct op; cbn [cmp_ok eval_vcond]; try reflexivity; destruct (re x v); reflexivity. Qed.
+
+  Lemma ev_kv_clause r s :
+    ev (pgin_env r) (kv_clause s) = Some (b2v (eval_clause re (sel_clause_of s) (to_gin r))).
+  Proof.
+    unfold kv_clause, And. rewrite (ev_LOp re cte). cbn [map].
+    rewrite (ev_matcher_clause (pgin_env r) (Id "val") (sl_op s) (sl_val s) (pg_val r)) by apply pg_val_env.
+    unfold Eq. rewrite (ev_LOp re cte). cbn [map PromSem.ev]. rewrite pg_key_env. cbn [all_some omap lop_apply val_eqb map truthy].
+    unfold eval_clause, sel_clause_of, clause_of. cbn [c_key c_cond m_name m_op m_val to_gin g_key g_val].
+    rewrite <- cmp_ok_vcond. destruct (String.eqb (pg_key r) (sl_name s)), (cmp_ok re (sl_op s) (sl_val s) (pg_val r)); reflexivity.
+  Qed.
+
+  Definition gexpr (x : pseudo * mop * string) : expr := let '(p, op, v) := x in global_clause p op v.
+
+  Lemma get_matchers_split sels :
+    get_matchers sels =
+    (map gexpr (fst (split_selectors (map prof_selector_val sels))), map kv_clause (snd (split_selectors (map prof_selector_val sels)))).
+  Proof.
+    induction sels as [|s sels IH]; [reflexivity|]. cbn [get_matchers map split_selectors]. rewrite IH.
+    destruct (split_selectors (map prof_selector_val sels)) as [g kv]. cbn [fst snd].
+    destruct (pseudo_of (sl_name (prof_selector_val s))); reflexivity.
+  Qed.
+
+  Lemma forallb_id_map {A} (f : A -> bool) l : forallb (fun b => b) (map f l) = forallb f l.
+  Proof. induction l as [|x l IH]; [reflexivity|]. cbn [map forallb]. now rewrite IH. Qed.
+
+  (* an `and` / `or` list whose members all have a boolean value *)
+  Lemma ev_and_bools rho es (bs : list bool) :
+    map (ev rho) es = map (fun b => Some (b2v b)) bs -> ev rho (And es) = Some (b2v (forallb (fun b => b) bs)).
+  Proof.
+    intros H. unfold And. rewrite (ev_LOp re cte), H, all_some_map_Some. cbn [lop_apply]. rewrite map_map.
+    rewrite (map_ext _ (fun b => Some b)) by (intros; apply truthy_b2v). rewrite all_some_map_Some. cbn [omap]. now rewrite map_id.
+  Qed.
+  Lemma ev_or_bools rho es (bs : list bool) :
+    map (ev rho) es = map (fun b => Some (b2v b)) bs -> ev rho (Or es) = Some (b2v (existsb (fun b => b) bs)).
+  Proof.
+    intros H. unfold Or. rewrite (ev_LOp re cte), H, all_some_map_Some. cbn [lop_apply]. rewrite map_map.
+    rewrite (map_ext _ (fun b => Some b)) by (intros; apply truthy_b2v). rewrite all_some_map_Some. cbn [omap]. now rewrite map_id.
+  Qed.
+
+  Lemma ev_globals r g :
+    ev (pgin_env r) (And (map gexpr g)) = Some (b2v (forallb (fun x => global_ok re x r) g)).
+  Proof.
+    rewrite (ev_and_bools _ _ (map (fun x => global_ok re x r) g)); [now rewrite forallb_id_map|].
+    rewrite !map_map. apply map_ext. intros [[p op] v]. cbn [gexpr global_ok]. apply ev_global_clause.
+  Qed.
+  Lemma ev_kvs r kv :
+    ev (pgin_env r) (Or (map kv_clause kv)) = Some (b2v (existsb (fun c => eval_clause re c (to_gin r)) (map sel_clause_of kv))).
+  Proof.
+    rewrite (ev_or_bools _ _ (map (fun s => eval_clause re (sel_clause_of s) (to_gin r)) kv)).
+    - rewrite existsb_id_map. do 2 f_equal. induction kv as [|k kv IH]; [reflexivity|]. cbn [map existsb]. now rewrite IH.
+    - rewrite !map_map. apply map_ext. intros s. apply ev_kv_clause.
+  Qed.
+
+  Lemma ev_dates r D1 D2 :
+    ev (pgin_env r) (Ge (Id "date") (DateV D1)) = Some (b2v (D1 <=? pg_date r)%Z) /\
+    ev (pgin_env r) (Le (Id "date") (DateV D2)) = Some (b2v (pg_date r <=? D2)%Z).
+  Proof.
+    unfold Ge, Le. rewrite !(ev_LOp re cte). cbn [map PromSem.ev]. rewrite pg_date_env. cbn. split.
+    - destruct (Z.ltb_spec (pg_date r) D1); destruct (Z.leb_spec D1 (pg_date r)); try reflexivity; lia.
+    - destruct (Z.ltb_spec D2 (pg_date r)); destruct (Z.leb_spec (pg_date r) D2); try reflexivity; lia.
+  Qed.
+
+  Notation eva := (eva re cte).
+  Lemma pbitset_row r kv : forall i,
+    bitset_row re cte (map kv_clause kv) i (pgin_env r) = Some (rowmask re (map sel_clause_of kv) i (to_gin r)).
+  Proof.
+    induction kv as [|k kv IH]; intros i; [reflexivity|].
+    cbn [map PromSem.bitset_row PromSem.rowmask]. rewrite ev_kv_clause, IH. unfold b2v, shl8. rewrite b2z_b2n. reflexivity.
+  Qed.
+
+  Lemma peva_having grp kv :
+    is_true (eva (map pgin_env grp)
+               (And [Eq (BitSetAnd (map kv_clause kv)) (IntV (2 ^ Z.of_nat (List.length (map kv_clause kv)) - 1))])) =
+    N.eqb (group_bit_or re (map sel_clause_of kv) (map to_gin grp)) (2 ^ N.of_nat (List.length (map sel_clause_of kv)) - 1).
+  Proof.
+    unfold And, Eq. rewrite (eva_LOp re cte (map pgin_env grp) OAnd). cbn [map].
+    rewrite (eva_LOp re cte (map pgin_env grp) OEq). cbn [map PromSem.eva].
+    rewrite map_map.
+    rewrite (map_ext _ (fun r => Some (rowmask re (map sel_clause_of kv) 0 (to_gin r)))) by (intros; apply pbitset_row).
+    rewrite all_some_map_Some. cbn [omap all_some lop_apply val_eqb].
+    rewrite fold_lor_map.
+    assert (Hg : fold_left (fun a r => N.lor a (rowmask re (map sel_clause_of kv) 0 (to_gin r))) grp 0%N =
+                 group_bit_or re (map sel_clause_of kv) (map to_gin grp)).
+    { unfold group_bit_or.
+      assert (H : forall acc, fold_left (fun a r => N.lor a (rowmask re (map sel_clause_of kv) 0 (to_gin r))) grp acc =
+                              fold_left (fun a r => N.lor a (rowmask re (map sel_clause_of kv) 0 r)) (map to_gin grp) acc).
+      { induction grp as [|r grp IH]; intros acc; [reflexivity|]. cbn [map fold_left]. apply IH. }
+      apply H. }
+    rewrite Hg. rewrite !map_length. rewrite <- pow2m1.
+    cbn [truthy map all_some omap].
+    destruct (N.eqb_spec (group_bit_or re (map sel_clause_of kv) (map to_gin grp)) (2 ^ N.of_nat (List.length kv) - 1)) as [He|Hne].
+    - rewrite He, Z.eqb_refl. reflexivity.
+    - replace (Z.of_N (group_bit_or re (map sel_clause_of kv) (map to_gin grp)) =? Z.of_N (2 ^ N.of_nat (List.length kv) - 1))%Z with false.
+      + reflexivity.
+      + symmetry. apply Z.eqb_neq. intros H. apply Hne. now apply N2Z.inj.
+  Qed.
+
+  Lemma penv_fp r : env_fp (pgin_env r) = Some (pg_fp r).
+  Proof. unfold env_fp. rewrite pg_fp_env, N2Z.id. reflexivity. Qed.
+  Lemma pflat_fp rows : flat_map (fun rho => match env_fp rho with Some f => [f] | None => [] end) (map pgin_env rows) = map pg_fp rows.
+  Proof. induction rows as [|r rows IH]; [reflexivity|]. cbn [map flat_map]. rewrite penv_fp, IH. reflexivity. Qed.
+
+  (* the WHERE clause in its four shapes *)
+  Lemma pwhere r D1 D2 g kv w :
+    w = And ([Ge (Id "date") (DateV D1); Le (Id "date") (DateV D2)]
+             ++ match g with [] => [] | _ => [And (map gexpr g)] end
+             ++ match kv with [] => [] | _ => [Or (map kv_clause kv)] end) ->
+    is_true (ev (pgin_env r) w) = prow_ok re D1 D2 g (map sel_clause_of kv) r.
+  Proof.
+    intros ->. destruct (ev_dates r D1 D2) as [Hd1 Hd2]. unfold prow_ok.
+    destruct g as [|x g'], kv as [|k kv'].
+    - rewrite (ev_and_bools _ _ [(D1 <=? pg_date r)%Z; (pg_date r <=? D2)%Z]) by (cbn [map app]; now rewrite Hd1, Hd2).
+      cbn [map forallb]. rewrite is_true_b2v. now rewrite !andb_true_r.
+    - assert (Hk := ev_kvs r (k :: kv')). remember (map kv_clause (k :: kv')) as ke. remember (map sel_clause_of (k :: kv')) as cs.
+      rewrite (ev_and_bools _ _ [(D1 <=? pg_date r)%Z; (pg_date r <=? D2)%Z; existsb (fun c => eval_clause re c (to_gin r)) cs])
+        by (cbn [map app]; now rewrite Hd1, Hd2, Hk).
+      cbn [forallb]. rewrite is_true_b2v. destruct cs; [discriminate|]. now rewrite !andb_true_r, andb_assoc.
+    - assert (Hgl := ev_globals r (x :: g')). remember (map gexpr (x :: g')) as ge. remember (x :: g') as g.
+      rewrite (ev_and_bools _ _ [(D1 <=? pg_date r)%Z; (pg_date r <=? D2)%Z; forallb (fun y => global_ok re y r) g])
+        by (cbn [map app]; now rewrite Hd1, Hd2, Hgl).
+      cbn [forallb map]. rewrite is_true_b2v. now rewrite !andb_true_r, andb_assoc.
+    - assert (Hk := ev_kvs r (k :: kv')). assert (Hgl := ev_globals r (x :: g')).
+      remember (map kv_clause (k :: kv')) as ke. remember (map sel_clause_of (k :: kv')) as cs.
+      remember (map gexpr (x :: g')) as ge. remember (x :: g') as g.
+      rewrite (ev_and_bools _ _ [(D1 <=? pg_date r)%Z; (pg_date r <=? D2)%Z; forallb (fun y => global_ok re y r) g;
+                                 existsb (fun c => eval_clause re c (to_gin r)) cs])
+        by (cbn [map app]; now rewrite Hd1, Hd2, Hgl, Hk).
+      cbn [forallb]. rewrite is_true_b2v. destruct cs; [discriminate|]. now rewrite !andb_true_r, !andb_assoc.
+  Qed.
+
+  Lemma eval_fpq_shape q w h envs rows1 : s_where q = Some w -> s_having q = h ->
+    filter (fun rho => is_true (ev rho w)) envs = rows1 ->
+    eval_fpq re cte q envs =
+    (let fps := nodup N.eq_dec (flat_map (fun rho => match env_fp rho with Some f => [f] | None => [] end) rows1) in
+     match h with
+     | Some hv => filter (fun fp => is_true (eva (filter (fun rho => opt_eqb_N (env_fp rho) fp) rows1) hv)) fps
+     | None => fps
+     end).
+  Proof. intros Hw Hh <-. unfold eval_fpq. rewrite Hw, Hh. reflexivity. Qed.
+
+  Theorem eval_prof_selector tbl from_ns to_ns sels rows :
+    eval_fpq re cte (prof_selector tbl from_ns to_ns sels) (map pgin_env rows) =
+    prof_fp_sel re (from_day from_ns) (to_ns / (86400 * 1000000000))%Z (map prof_selector_val sels) rows.
+  Proof.
+    unfold prof_selector, prof_fp_sel. rewrite get_matchers_split.
+    destruct (split_selectors (map prof_selector_val sels)) as [g kv]. cbn [fst snd].
+    set (D1 := from_day from_ns). set (D2 := (to_ns / (86400 * 1000000000))%Z).
+    set (dates := [Ge (Id "date") (DateV D1); Le (Id "date") (DateV D2)]).
+    assert (Hw : forall w,
+              w = And (dates ++ match g with [] => [] | _ => [And (map gexpr g)] end
+                             ++ match kv with [] => [] | _ => [Or (map kv_clause kv)] end) ->
+              filter (fun rho => is_true (ev rho w)) (map pgin_env rows) =
+              map pgin_env (filter (prow_ok re D1 D2 g (map sel_clause_of kv)) rows)).
+    { intros w Hweq. rewrite filter_map_comm. f_equal. apply filter_ext. intros r. now apply pwhere. }
+    assert (Hhave : forall fp rows1 (k : selector) kv',
+              is_true (eva (filter (fun rho => opt_eqb_N (env_fp rho) fp) (map pgin_env rows1))
+                         (And [Eq (BitSetAnd (map kv_clause (k :: kv'))) (IntV (2 ^ Z.of_nat (List.length (map kv_clause (k :: kv'))) - 1))])) =
+              N.eqb (group_bit_or re (map sel_clause_of (k :: kv')) (group_of (map to_gin rows1) fp))
+                    (2 ^ N.of_nat (List.length (map sel_clause_of (k :: kv'))) - 1)).
+    { intros fp rows1 k kv'. rewrite filter_map_comm.
+      rewrite (filter_ext (fun x => opt_eqb_N (env_fp (pgin_env x)) fp) (fun r => N.eqb (pg_fp r) fp)) by (intros; now rewrite penv_fp).
+      unfold group_of. rewrite filter_map_comm. cbn [to_gin g_fp]. apply peva_having. }
+    destruct g as [|x g'], kv as [|k kv'].
+    - erewrite eval_fpq_shape; [|reflexivity|reflexivity|apply Hw; reflexivity]. cbv zeta.
+      rewrite pflat_fp. reflexivity.
+    - erewrite eval_fpq_shape; [|reflexivity|reflexivity|apply Hw; reflexivity]. cbv zeta.
+      rewrite pflat_fp. cbn [map]. apply filter_ext. intros fp. apply (Hhave fp _ k kv').
+    - erewrite eval_fpq_shape; [|reflexivity|reflexivity|apply Hw; reflexivity]. cbv zeta.
+      rewrite pflat_fp. reflexivity.
+    - erewrite eval_fpq_shape; [|reflexivity|reflexivity|apply Hw; reflexivity]. cbv zeta.
+      rewrite pflat_fp. cbn [map]. apply filter_ext. intros fp. apply (Hhave fp _ k kv').
+  Qed.
+End PBRIDGE.
